@@ -211,13 +211,14 @@ func init() {
 	register(&Property{
 		ID:          "C08",
 		Level:       "other",
-		Explanation: "Decides the orientation agreement of the six functions that walk the 32-level tree (a necessary condition of 'every proof verifies against its root'): each has a per-level test of the index bit (recognised forms idx&(1<<h) {>,!=,==} 0 and (idx>>h)&1 {==,!=} {0,1}), covers levels 0..31 or 31..0 with the very variable used in the bit test, and on the bit-set edge treats the running node as a RIGHT child — builders hash (sibling[h], running) and (running, sibling[h]) on the clear edge; walkers descend into node.Right / node.Left of the node fetched for the running hash; getSiblings records node.Left / node.Right accordingly and substitutes zeroHashes[h] only when the node is absent; AddLeaf reads lastLeftCache[h] / zeroHashes[h] and writes the cache on the clear edge only; UpsertLeaf uses the siblings of the same index. This is the verifier's (CalculateRoot) and the contracts' convention, so a single flipped site is reported at that site. C08-pair: GetProof returns the siblings of the (index, root) asked, and callers pass index and root hash of one root. Not decided: that proof values recompute the root for all tree contents (an induction over contents), and 'last written as of that root' (content addressing of rht is trusted). Added after round 7: C08-schema, C08-feed (rollup-exit updates keyed by log index, shared with C11-feed), C08-trees (every reorg rewinds both trees, shared with C04), lookups answer found only with the row they read.",
+		Explanation: "Decides the orientation agreement of the six functions that walk the 32-level tree (a necessary condition of 'every proof verifies against its root'): each has a per-level test of the index bit (recognised forms idx&(1<<h) {>,!=,==} 0 and (idx>>h)&1 {==,!=} {0,1}), covers levels 0..31 or 31..0 with the very variable used in the bit test, and on the bit-set edge treats the running node as a RIGHT child — builders hash (sibling[h], running) and (running, sibling[h]) on the clear edge; walkers descend into node.Right / node.Left of the node fetched for the running hash; getSiblings records node.Left / node.Right accordingly and substitutes zeroHashes[h] only when the node is absent; AddLeaf reads lastLeftCache[h] / zeroHashes[h] and writes the cache on the clear edge only; UpsertLeaf uses the siblings of the same index. This is the verifier's (CalculateRoot) and the contracts' convention, so a single flipped site is reported at that site. C08-pair: GetProof returns the siblings of the (index, root) asked, and callers pass index and root hash of one root. Not decided: that proof values recompute the root for all tree contents (an induction over contents), and 'last written as of that root' (content addressing of rht is trusted). Added after round 7: C08-schema, C08-feed (rollup-exit updates keyed by log index, shared with C11-feed), C08-trees (every reorg rewinds both trees, shared with C04), lookups answer found only with the row they read. Added after round 9: C08-frontier-mem (shared with C07 TX-mem, including the db.Tx obligations).",
 		Rules: []Rule{
 			{ID: "C08-schema", Floor: 3, Run: func(c *core.Ctx) { schemaTypesRule(c, "C08-schema", "tree") }, Text: "[SCHEMA-TYPES] integer columns have INTEGER affinity (numeric ORDER BY), big.Int text columns have TEXT affinity, references are not deferred to COMMIT"},
 			{ID: "C08-feed", Floor: 40, Run: shared("C08-feed", c11Feed), Text: "(shared with C11-feed) rollup exit tree updates are keyed by (block, log index): the base root of an upsert is the latest one"},
 			{ID: "C08-trees", Floor: 6, Run: shared("C08-trees", c04Trees), Text: "(shared with C04-trees) every reorg rewinds both trees"},
 			{ID: "C08-orient", Floor: 12, Run: c08Orient, Text: "[TREE] bit test, level range and left/right roles agree in all six walkers"},
 			{ID: "C08-node", Floor: 2, Run: func(c *core.Ctx) { nodeHashRule(c, "C08-node") }, Text: "(shared with C01-step) node hash = keccak(left ‖ right) from a hasher of its own; zero-hash recurrence"},
+			{ID: "C08-frontier-mem", Floor: 9, Run: shared("C08-frontier-mem", c07TxMem), Text: "(shared with C07 TX-mem) a rolled-back block leaves no sibling in the frontier cache; the callbacks registered on a transaction run"},
 			{ID: "C08-store", Floor: 9, Run: c08Store, Text: "[DOM]+SQL: every path node stored; ErrNotFound only for sql.ErrNoRows; last root by (block_num, block_position)"},
 			{ID: "C08-pair", Floor: 3, Run: c08Pair, Text: "[PROV] (index, root) pairs passed to proof generation belong together"},
 		},
